@@ -107,6 +107,61 @@ theorem consumers_groupFit_no_panic {c : Converter Rat} (hc : c.Sound) (g : Grou
     (s : PanicSite) : (GroupedQuantity.fit c g).2 ≠ .error (.panic s) :=
   consumers_fitKnown_no_panic hc s _ g
 
+/-! ### the `assert!`s of `Number::new_approx`
+
+  `new_approx` starts with `assert!((0.0..=1.0).contains(&accuracy))` and `assert!(max_den <= 64)`.  The model's
+  `newApprox` does not contain them; they are the precondition `cfgPre` of the configuration passed, and
+  `Converter.wf` demands it of every configuration the converter holds.  Every call the consumers make
+  (`try_fraction`, `fit_fraction`) passes `converter.fractions_config(unit)`: -/
+
+theorem consumers_lookup_mem {κ β : Type} [BEq κ] (l : List (κ × β)) (k : κ) (v : β)
+    (h : l.lookup k = some v) : v ∈ l.map (·.2) := by
+  induction l with
+  | nil => simp [List.lookup] at h
+  | cons a t ih =>
+    obtain ⟨a1, a2⟩ := a
+    simp only [List.lookup] at h
+    split at h
+    · simp only [Option.some.injEq] at h; subst h; simp
+    · simp only [List.map_cons, List.mem_cons]; exact Or.inr (ih h)
+
+/-- every configuration `fractions_config` can return is one the converter holds, or the default one -/
+theorem consumers_config_mem (f : Fractions Rat) (sys : Option System) (q : PhysQ) (id : Nat) :
+    f.config sys q id ∈ defaultCfg (α := Rat) :: f.cfgs := by
+  unfold Fractions.config Fractions.cfgs
+  split
+  · rename_i cfg h
+    have := consumers_lookup_mem _ _ _ h
+    simp only [List.mem_cons, List.mem_append]; exact Or.inr (Or.inr this)
+  · split
+    · rename_i cfg h
+      have := consumers_lookup_mem _ _ _ h
+      simp only [List.mem_cons, List.mem_append]; exact Or.inr (Or.inl (Or.inr this))
+    · split
+      · rename_i cfg h
+        simp only [List.mem_cons, List.mem_append, Option.mem_toList]
+        cases sys with
+        | none => simp [systemCfg] at h
+        | some sy =>
+          cases sy with
+          | metric =>
+            simp only [systemCfg] at h
+            exact Or.inr (Or.inl (Or.inl (Or.inl (Or.inr h))))
+          | imperial =>
+            simp only [systemCfg] at h
+            exact Or.inr (Or.inl (Or.inl (Or.inr h)))
+      · split
+        · rename_i cfg h
+          simp only [List.mem_cons, List.mem_append, Option.mem_toList]
+          exact Or.inr (Or.inl (Or.inl (Or.inl (Or.inl h))))
+        · exact List.mem_cons_self ..
+
+/-- the two `assert!`s of `new_approx` hold at every call the consumers make, for a well-formed converter -/
+theorem consumers_config_pre {c : Converter Rat} (hw : c.wf = true) (u : Unit Rat) :
+    newApproxPre (c.fractionsConfig u).accuracy (c.fractionsConfig u).maxDen = true := by
+  simp only [Converter.wf, Bool.and_eq_true, List.all_eq_true] at hw
+  exact hw.2 _ (consumers_config_mem c.fractions u.system u.pq u.id)
+
 /-! ### `ScaledRecipe::convert` -/
 
 theorem consumers_convStep_no_panic {c : Converter Rat} (hc : c.Sound) (to : System) (q : SQuantity Rat) :
